@@ -10,8 +10,15 @@ use gmsol_store::{accounts as sa, instruction as si};
 use gmsol_utils::{oracle::PriceProviderKind, role::RoleKey, token_config::UpdateTokenConfigParams};
 use hostsvm::{key, token, Account, Svm, TxError, TxMeta};
 
+pub mod competition;
 pub mod exchange;
+pub mod glv;
+pub mod gt;
+pub mod lp;
 pub mod oracle;
+pub mod timelock;
+pub mod treasury;
+pub mod user;
 
 pub use gmsol_sdk::pda;
 pub use gmsol_store::ID as STORE_PID;
@@ -428,6 +435,45 @@ pub fn smoke() -> i32 {
         println!("execute_deposit: {:?}", r.map(|m| m.events.len()).map_err(|(e, _)| e));
         let mt = w.markets[m0].market_token;
         println!("market token escrow: {:?}", token::token_amount(&w.svm, &token::ata(&d, &mt)));
+        println!("close_deposit: {:?}", w.close_deposit(alice, d).map(|_| ()).map_err(|(e, _)| e));
+        println!("alice market tokens: {:?}", token::token_amount(&w.svm, &token::ata(&alice, &mt)));
     }
+    // withdrawal
+    let wd = w.create_withdrawal(alice, m0, 1_000_000_000, None, None, &[], &[], 0, 0);
+    println!("create_withdrawal: {:?}", wd.as_ref().map_err(|(e, _)| e));
+    if let Ok(wd) = wd {
+        println!("execute_withdrawal: {:?}", w.execute_withdrawal(wd, true).map(|m| m.events.len()).map_err(|(e, _)| e));
+        println!("close_withdrawal: {:?}", w.close_withdrawal(alice, wd).map(|_| ()).map_err(|(e, _)| e));
+    }
+    // increase
+    use exchange::{OrderKind, OrderReq};
+    let mut req = OrderReq::new(OrderKind::MarketIncrease, m0, true, false);
+    req.initial_collateral_delta_amount = 100_000_000; // 100 USDC
+    req.size_delta_value = 500 * UNIT;
+    let o = w.create_order(alice, &req);
+    println!("create_order(increase): {:?}", o.as_ref().map_err(|(e, _)| e));
+    if let Ok(o) = o {
+        println!("execute_order: {:?}", w.execute_order(o, true).map(|m| m.events.len()).map_err(|(e, _)| e));
+        println!("close_order: {:?}", w.close_order(alice, o).map(|_| ()).map_err(|(e, _)| e));
+    }
+    let mut req = OrderReq::new(OrderKind::MarketDecrease, m0, true, false);
+    req.size_delta_value = 200 * UNIT;
+    let o = w.create_order(alice, &req);
+    println!("create_order(decrease): {:?}", o.as_ref().map_err(|(e, _)| e));
+    if let Ok(o) = o {
+        println!("execute_order: {:?}", w.execute_order(o, true).map(|m| m.events.len()).map_err(|(e, _)| e));
+        println!("close_order: {:?}", w.close_order(alice, o).map(|_| ()).map_err(|(e, _)| e));
+    }
+    let mut req = OrderReq::new(OrderKind::MarketSwap, m0, true, false);
+    req.initial_collateral_token = Some(sol_mint);
+    req.initial_collateral_delta_amount = 1_000_000_000;
+    req.swap_path = vec![w.markets[m0].market_token];
+    let o = w.create_order(alice, &req);
+    println!("create_order(swap): {:?}", o.as_ref().map_err(|(e, _)| e));
+    if let Ok(o) = o {
+        println!("execute_order: {:?}", w.execute_order(o, true).map(|m| m.events.len()).map_err(|(e, _)| e));
+        println!("close_order: {:?}", w.close_order(alice, o).map(|_| ()).map_err(|(e, _)| e));
+    }
+    println!("alice usdc {:?} sol {:?}", token::token_amount(&w.svm, &token::ata(&alice, &usdc_mint)), token::token_amount(&w.svm, &token::ata(&alice, &sol_mint)));
     0
 }
